@@ -34,7 +34,7 @@ man = {
                  "kind_free_text": "own VC generator: real function source (inspect.getsource on every run) -> symbolic execution over ast -> z3 (cvc5/z3-4.8 fallback); sidecar contracts in contracts/; bounded run-time stand-ins in bounded/"}],
     "checks": checks,
     "not_applicable": not_app,
-    "notes": "exit 0 held / 1 violation / 3 engine error; undecided obligations never raise a violation (see DESIGN.md 3.11)",
+    "notes": "exit 0 held / 1 violation / 3 engine error; undecided obligations never raise a violation (see DESIGN.md 3.6)",
 }
 json.dump(man, open(os.path.join(ROOT, "MANIFEST.json"), "w"), indent=1)
 print(f"MANIFEST: {len(checks)} checks, {len(not_app)} not_applicable")
